@@ -221,6 +221,17 @@
   (def r (window (peg/match ~(some (cmt (capture 1) ,(fn [c] (churn 1) (fresh c)))) "abcd")))
   (each x r (print x)))
 
+(defscenario peg-extra-args-after-callback
+  # extra arguments of peg/match are read by (argument n) AFTER a callback that calls back into the interpreter (the
+  # fiber stack they were passed on may have moved meanwhile), also through peg/replace-all's function form
+  (defn deep [k] (if (= k 0) (do (churn 1) 0) (+ 1 (deep (- k 1)))))
+  (def g ~(* (cmt (capture 1) ,(fn [c] (deep 40) (fresh c))) (argument 0) (argument 1)
+            (replace (capture 1) ,(fn [c] (deep 40) (string c "!"))) (argument 1)))
+  (def r (window (peg/match g "xy" 0 (fresh "arg0") (fresh-tab "arg1"))))
+  (print (string/format "%j" r))
+  (def r2 (window (peg/replace-all ~(* (capture "a") (argument 0)) (fn [whole c a] (deep 30) (string c a)) "aXa" 0 (fresh-str "ra"))))
+  (print r2))
+
 (defscenario deep-mark-spill
   # structure deeper than the recursive marking limit: spills to the root list
   (var x (fresh "dms"))
